@@ -957,6 +957,8 @@ static const char* end_of_printed_string(const char* src)
         }
         if(*src == '"' && src[1] == '\\') {
             skip_fmt_null(&src, "\"\\ \"%n");
+            if(!src)
+                return NULL; // no second string behind the backslash
             cont = true;
         }
         else
